@@ -534,7 +534,14 @@ func c07Conn(r *fw.R, beh string, role Role, p wire.Params, seed uint64, success
 			data := make([]byte, size)
 			n, err := io.ReadFull(rd, data)
 			if w := checkProvenance(data[:n], k, m); w != "" {
-				r.Violate("C07/foreign-bytes-in-read/"+beh, fmt.Sprintf("connection %d: message %d (compressed=%v) read with ReadFull: %s", k, m, comp, w), "")
+				// what the library makes of a connection whose reader was never read to io.EOF is that
+				// connection's affair; isolation is broken only if ANOTHER connection's bytes show up
+				if f := scanForeign(data[:n], k); f != "" {
+					r.Violate("C07/foreign-bytes-in-read/"+beh, fmt.Sprintf("connection %d: message %d (compressed=%v) read with ReadFull: %s", k, m, comp, f), "")
+				} else {
+					r.Count("own_messages_garbled_after_a_reader_was_not_read_to_eof_not_judged", 1)
+					outcome = "own-data-garbled-after-unfinished-read"
+				}
 				return
 			}
 			if err != nil {
